@@ -223,7 +223,7 @@ Next ==
   /\ l <= Len(Tr)
   /\ LET e == Tr[l]
          s == Step(e)
-     IN /\ (s.fails # {} => PrintT(<<"FAIL", l, s.fails>>))
+     IN /\ (s.fails # {} => PrintT("FAIL|" \o ToString(l) \o "|" \o ToString(s.fails)))
         /\ boards' = s.bs
         /\ seen' = IF s.reset THEN <<>> ELSE IF Want("C07") THEN NewSeen(s.recs) ELSE seen
         /\ toks' = IF s.reset THEN {} ELSE IF Want("C07") THEN toks \cup { s.recs[i].hash : i \in 1..Len(s.recs) } ELSE toks
